@@ -152,7 +152,11 @@ pub const T0_NS: i64 = 1_709_294_400_000_000_000;
 /// writes it; if `fragments` is set, strict prefixes of such objects (what a
 /// failed encode leaves in the appender's own buffer) may precede an object
 /// on its line and contribute the part of the message they hold.
-pub fn decode_json(data: &[u8], fragments: bool) -> Result<Vec<u8>, (usize, String)> {
+pub fn decode_json(data: &[u8], fragments: bool, open_tail: bool) -> Result<Vec<u8>, (usize, String)> {
+    if !open_tail && !data.is_empty() && data.last() != Some(&b'\n') {
+        let at = data.iter().rposition(|b| *b == b'\n').map(|i| i + 1).unwrap_or(0);
+        return Err((at, "the last line is not terminated although no record is being written".into()));
+    }
     const START: &[u8] = b"{\"time\":";
     const MSG: &[u8] = b"\"message\":\"";
     fn find(h: &[u8], n: &[u8], from: usize) -> Option<usize> {
